@@ -983,6 +983,72 @@ func runGraph(c *lib.Ctx, r *lib.Rng, d *gdesc, tag string, queries int) {
 	c.HistN("packages", len(d.Pkgs))
 }
 
+// Ladders: a chain c0 <- c1 <- ... <- ck with random shortcuts, side nodes that open a second, shorter path to a late
+// chain node (c0|c1 <- s <- cj) and a tail that is reachable through ck only; c0 consumes the changed file.  A node is reachable over paths of different lengths, so a level-limited search that is not
+// breadth first (wrong queue discipline, depth taken from the wrong path) cuts the report short.  Target names are
+// shuffled so that the long path is met first about as often as the short one.
+func genLadder(r *lib.Rng) (*gdesc, []string) {
+	k := r.Range(3, 6)    // chain c0..ck
+	tail := r.Range(1, 2) // nodes behind ck that are reachable through ck only
+	side := r.Range(1, 2) // side nodes: s depends on an early chain node, a later chain node depends on s (a second, shorter path)
+	n := k + 1 + tail + side
+	names := make([]int, n)
+	for i := range names {
+		names[i] = i
+	}
+	lib.Shuffle(r, names)
+	label := func(i int) string { return fmt.Sprintf("//a:n%d", names[i]) }
+	d := &gdesc{Pkgs: []string{"a"}}
+	deps := make([][]string, n)
+	for i := 1; i <= k; i++ {
+		deps[i] = []string{label(i - 1)}
+		for j := 0; j < i-1; j++ {
+			if r.Chance(1, 12) {
+				deps[i] = append(deps[i], label(j))
+			}
+		}
+	}
+	for i := k + 1; i <= k+tail; i++ {
+		deps[i] = []string{label(i - 1)}
+		if r.Chance(1, 3) {
+			deps[i] = []string{label(k)}
+		}
+	}
+	for s := k + tail + 1; s < n; s++ {
+		from := r.Range(0, 1)
+		to := r.Range(from+2, k)
+		if r.Chance(2, 3) {
+			to = k
+		}
+		deps[s] = []string{label(from)}
+		deps[to] = appendNew(deps[to], label(s))
+	}
+	for i := 0; i < n; i++ {
+		if r.Chance(1, 2) {
+			lib.Shuffle(r, deps[i])
+		}
+		d.Targets = append(d.Targets, tdesc{Label: label(i), Srcs: []string{fmt.Sprintf("f%d.go", i)}, Deps: deps[i], Cmd: "c"})
+	}
+	lib.Shuffle(r, d.Targets)
+	return d, []string{"a/f0.go"}
+}
+
+func runLadders(c *lib.Ctx) {
+	n := c.Scale(40, 600)
+	for i := 0; i < n; i++ {
+		r := c.Rng.Fork()
+		d, files := genLadder(r)
+		for k, lvl := range []int{3, 4, r.Range(1, 2), r.Range(5, 7), -1} {
+			q := qdesc{Files: files, Level: lvl}
+			if r.Chance(1, 4) {
+				q.Before = cloneDesc(d) // the same search from the before/after entry point
+			}
+			runQuery(c, d, q, k < 3, fmt.Sprint("ladder", i, "/", k))
+		}
+		c.HistN("ladder_targets", len(d.Targets))
+	}
+}
+
 // fixed graphs: the documented examples and the witnesses of the known defect classes
 func fixedCases() []caseJS {
 	lib1 := tdesc{Label: "//a:lib", Srcs: []string{"lib.go", "res"}, Cmd: "c"}
@@ -1038,6 +1104,7 @@ func main() {
 			"per graph several queries: 1-4 changed files (consumed files, files below directory sources, BUILD files, near misses, unowned and absolute paths), " +
 			"level in {0,-1,1,2,3,-2}, include_subrepos, every third query a before/after graph pair derived by definition edits (command, source, label, dependency, " +
 			"out-of-repo tool, data, added and removed targets, config). distinct = distinct (graph, query); non-trivial = some target is directly affected and some other target depends on it. " +
+			"Ladders: chains of 4-7 targets with random shortcuts, 1-2 side targets that open a shorter path to a late chain target, and a tail of 1-2 targets reachable through the chain's last target only (several path lengths to the same target, shuffled names and dependency order), the file of the chain's first target changed, levels 3, 4, one of 1-2, one of 5-7, and -1. " +
 			"End to end (needs the plz binary): generated repositories (harness/e2e: up to 4 packages incl. a nested one, genrule / filegroup / text_file targets over files and labels, " +
 			"2 in 3 with a directory source holding nested files) committed to a git work tree, 1-3 random edits (file contents, files under the directory source, sources added / dropped / swapped, commands, " +
 			"outputs, comments, targets added / removed, unused files) committed on top; real `plz query changes --since HEAD~1 --level N` and `plz query changes --level N <changed files>` " +
@@ -1057,6 +1124,7 @@ func main() {
 			d := generate(r)
 			runGraph(c, r, d, fmt.Sprint("g", i), c.Scale(10, 12))
 		}
+		runLadders(c)
 		runE2E(c)
 		c.Note("a reported target that the reference does not require is not a violation (histogram extra_reported counts them per query)")
 	})
